@@ -78,7 +78,11 @@ func checkRT(c rtCase, r *h.Rec) error {
 	}
 	blob := append([]byte{}, b.blob...)
 	if c.Wrong == 0 {
-		got, err := b.dec(blob, append([]byte{}, b.secret...))
+		sec := append([]byte{}, b.secret...)
+		got, err := b.dec(blob, sec)
+		if !bytes.Equal(blob, b.blob) || !bytes.Equal(sec, b.secret) {
+			return fmt.Errorf("%s: the decoder modified the caller's container bytes or secret slice", c.label())
+		}
 		if err != nil {
 			return fmt.Errorf("%s: decode(encode(k)) failed: %v (key class %s, container %s)", c.label(), err, c.Key, h.Hex(b.blob))
 		}
@@ -101,7 +105,11 @@ func checkRT(c rtCase, r *h.Rec) error {
 	if bytes.Equal(ws, b.secret) {
 		return fmt.Errorf("c14 harness: wrong secret equals the right one")
 	}
+	wsBefore := append([]byte{}, ws...)
 	got, err := b.dec(blob, ws)
+	if !bytes.Equal(blob, b.blob) || !bytes.Equal(ws, wsBefore) {
+		return fmt.Errorf("%s: the decoder (wrong secret) modified the caller's container bytes or secret slice", c.label())
+	}
 	if err == nil {
 		what := "a DIFFERENT key"
 		if sameKey(b.orig, got) == nil {
@@ -274,7 +282,11 @@ func checkAlter(c altCase, r *h.Rec) error {
 		r.Label("excluded:kdf-cost")
 		return nil
 	}
-	got, err := b.dec(a, append([]byte{}, b.secret...))
+	aBefore, sec := append([]byte{}, a...), append([]byte{}, b.secret...)
+	got, err := b.dec(a, sec)
+	if !bytes.Equal(a, aBefore) || !bytes.Equal(sec, b.secret) {
+		return fmt.Errorf("%s: the decoder modified the caller's (altered) container bytes or secret slice at byte %d", c.label(), c.Pos)
+	}
 	desc := func() string {
 		return fmt.Sprintf("%s (key class %s): byte %d (%s) altered %02x -> %02x; container %s", c.label(), c.Key, c.Pos, zname, b.blob[c.Pos], nb, h.Hex(b.blob))
 	}
